@@ -595,3 +595,143 @@ Section InSyncFaultsDdw0.
       unfold word_msgs. rewrite E. exact Hm.
   Qed.
 End InSyncFaultsDdw0.
+
+(* ================================================================== the first TDH of a page: the word right behind the IHW *)
+(* the payload of a format-2 page is cut in 10-byte words when its second word does not start with six zero bytes (finding F12 is about the
+   other case); a format-0 page is cut in 16-byte slots whatever the words are *)
+Definition not_six_zeros (w : list N) : Prop := forall tail, Nat.eqb (take_while_zero (take 6 (w ++ tail))) 6 = false.
+
+Lemma layout_words_gen fmt ws pad second tl : (fmt = 0 \/ fmt = 2) -> Forall gw ws -> (pad <= 15)%nat ->
+  ws = hd [] ws :: second :: tl -> (fmt = 0 \/ not_six_zeros second) ->
+  words_of (layout fmt ws pad) = Some ws.
+Proof.
+  intros Hfmt Hg Hpad Hshape Hsec. pose proof (gw_word10 ws Hg) as H10.
+  assert (Hne : ws <> []) by (rewrite Hshape; discriminate).
+  unfold layout. destruct Hfmt as [-> | ->]; cbn [N.eqb].
+  - exact (proj1 (c12_fmt0 ws pad H10 Hne Hpad)).
+  - destruct Hsec as [X|Hsec]; [discriminate X|].
+    refine (proj1 (c12_fmt2 ws pad H10 Hpad (last_not_ff_words ws Hg Hne) _)).
+    unfold detect_fmt0. rewrite Hshape. cbn [concat].
+    assert (L : length (hd [] ws) = 10%nat).
+    { rewrite Hshape in H10. inversion H10; subst. cbn [hd]. assumption. }
+    rewrite <- app_assoc. rewrite <- L at 1. rewrite drop_app_exact. rewrite <- app_assoc.
+    apply Hsec.
+Qed.
+
+Section FaultyFirstTdh.
+  Context (HS : C04_stave.sites_handled).
+
+  Lemma insync_first_tdh_page running ld h k pg ihw opened w rest pad s pos :
+    (l_format ld = 0 \/ l_format ld = 2) -> W_ihw ihw -> Forall gw (w :: rest) -> (l_format ld = 0 \/ not_six_zeros w) -> (pad <= 15)%nat ->
+    pg_payload pg = layout (l_format ld) (ihw :: w :: rest) pad -> PEntry opened s ->
+    pos + 64 + 2 * 16 < 18446744073709551616 ->
+    exists sk s' more,
+      do_payload_checks (its_cfg running) s (render_rdh ld h k 0 pg) (pg_payload pg) pos = Ok (s', word_msgs (its_cfg running) sk w ++ more) /\
+      (cs_fsm sk = S_cTDH \/ cs_fsm sk = S_TDH_ByIhw) /\
+      pos_of sk = C07_proofs.wpos (pos + 64) (10 + C07_proofs.pad_of (render_rdh ld h k 0 pg)) 1.
+  Proof.
+    intros Hfmt Hihw Hgw Hsix Hpad Hpl [Hrfv Hen] Hbound.
+    set (r := render_rdh ld h k 0 pg).
+    destruct (set_rdh_its s r pos Hrfv) as (s1 & E1 & F1 & R1 & V1 & W1).
+    destruct (C07_proofs.set_current_rdh_ok s r pos s1 E1) as (P1 & C1 & D1 & _).
+    assert (Hwords : words_of (pg_payload pg) = Some (ihw :: w :: rest)).
+    { rewrite Hpl. apply (layout_words_gen _ _ _ w rest); auto. constructor; [apply gw_ihw; exact Hihw|exact Hgw]. }
+    rewrite (c12_packet_words _ _ _ _ _ s1 _ E1 Hwords).
+    assert (Hstop : r_stop_bit r = 0) by reflexivity.
+    assert (Hpre : exists sk, cdp_words (its_cfg running) s1 [ihw] [] = Ok (sk, []) /\ (cs_fsm sk = S_cTDH \/ cs_fsm sk = S_TDH_ByIhw)).
+    { destruct opened as [o|].
+      - destruct Hen as (Hf & Ht & Ho).
+        assert (S1 : St s1 S_cIHW r (sw_ihw (cs_words s1)) (Some o)) by (unfold St; rewrite F1, W1; repeat split; auto).
+        destruct (step_ihw_cont running s1 r _ _ ihw S1 Hihw) as [s2 [E2 S2]].
+        exists s2. cbn [cdp_words]. rewrite E2. cbn [app]. split; [reflexivity|left; apply S2].
+      - assert (S1 : St s1 (cs_fsm s) r (sw_ihw (cs_words s1)) (sw_tdh (cs_words s1))) by (unfold St; repeat split; auto).
+        destruct (step_ihw running s1 _ r _ _ ihw S1 Hen Hihw Hstop) as [s2 [E2 S2]].
+        exists s2. cbn [cdp_words]. rewrite E2. cbn [app]. split; [reflexivity|right; apply S2]. }
+    destruct Hpre as (sk & Epre & Fk).
+    destruct (cdp_words_tracker _ _ _ _ _ _ 0%nat Epre C1 ltac:(cbn [length Nat.add]; lia)) as (Tc & Tp & Td). cbn [Nat.add length] in Tc.
+    change (ihw :: w :: rest) with ([ihw] ++ w :: rest). rewrite cdp_words_app, Epre.
+    destruct (C04_stave.cdp_words_ok HS (its_cfg running) (w :: rest) sk []) as [[s' ms] Ew]. rewrite Ew.
+    cbn [cdp_words] in Ew. destruct (cdp_check (its_cfg running) sk w) as [[s3 m]|p] eqn:Ec; [|discriminate].
+    destruct (cdp_words_extends _ _ _ _ _ _ Ew) as [more ->]. cbn [app].
+    exists sk, s', more. split; [unfold word_msgs; rewrite Ec; reflexivity|]. split; [exact Fk|].
+    assert (Hw64 : wrap64 (pos + 64) = pos + 64) by (unfold wrap64; apply N.mod_small; lia).
+    rewrite (pos_of_at sk 1 Tc); rewrite ?Tp, ?Td, ?P1, ?D1, ?Hw64; [reflexivity|lia|].
+    unfold C07_proofs.pad_of. destruct (rdh_data_format r =? 0); lia.
+  Qed.
+
+  (* both states have a single successor, the TDH: EVERY word that is no sane TDH draws [E40] at the word *)
+  Lemma insync_first_tdh_fault c sk w more : (cs_fsm sk = S_cTDH \/ cs_fsm sk = S_TDH_ByIhw) ->
+    tdh_sanity w <> [] -> has_err (pos_of sk) 40 (word_msgs c sk w ++ more).
+  Proof.
+    intros Hf Hne. apply has_err_app. left. destruct Hf as [Hf|Hf].
+    - apply (c02_tdh_sanity c sk w P_TDH_cont); [unfold advance, advance_k; rewrite Hf; reflexivity|right; left; reflexivity|exact Hne].
+    - apply (c02_tdh_sanity c sk w P_TDH); [unfold advance, advance_k; rewrite Hf; destruct (sl_tdh_no_data w); reflexivity|left; reflexivity|exact Hne].
+  Qed.
+End FaultyFirstTdh.
+
+Section FaultyFirstTdhLink.
+  Context (HS : C04_stave.sites_handled).
+  Context (ld : link_desc) (Hwf : wf_link_rdh ld = true) (Hsys : l_system ld = Gen.Facts.its_system_id)
+          (Hfmt : l_format ld = 0 \/ l_format ld = 2).
+  Let layf (p : its_page) : list N := layout (l_format ld) (page_words p) (ip_pad p).
+
+  Theorem c02_insync_link_first_tdh running hbfs1 ihs1 h hbfs2 pgs1 pg pgs2 ips1 ip ips2 ihw w rest pad ps1 p ps2 :
+    l_hbfs ld = hbfs1 ++ h :: hbfs2 -> Forall2 (its_hbf_ok (l_format ld)) hbfs1 ihs1 ->
+    h_pages h = pgs1 ++ pg :: pgs2 ->
+    pages_ok h true None (ips1 ++ ip :: ips2) ->
+    map pg_payload pgs1 = map layf ips1 ->
+    W_ihw ihw -> Forall gw (w :: rest) -> (l_format ld = 0 \/ not_six_zeros w) -> (pad <= 15)%nat ->
+    pg_payload pg = layout (l_format ld) (ihw :: w :: rest) pad ->
+    map strip ps1 = flat_map (render_hbf ld) hbfs1 ++ render_pages ld h 0 pgs1 ->
+    strip p = (render_rdh ld h (N.of_nat (length pgs1)) 0 pg, pg_payload pg) ->
+    c_off p + 64 + 2 * 16 < 18446744073709551616 ->
+    exists sk,
+      (cs_fsm sk = S_cTDH \/ cs_fsm sk = S_TDH_ByIhw) /\
+      pos_of sk = C07_proofs.wpos (c_off p + 64) (10 + C07_proofs.pad_of (c_rdh p)) 1 /\
+      exists out more, run_validator (its_cfg running) (ps1 ++ p :: ps2) = Ok out /\ out = word_msgs (its_cfg running) sk w ++ more.
+  Proof.
+    intros Hl Hall Hpages Hpo Hpl1 Hihw Hgw Hsix Hpad Hpl Hm1 Hp Hbound.
+    pose proof (wf_parts ld Hwf) as (_ & _ & _ & _ & _ & _ & _ & _ & Hh & Ho). rewrite Hl in Hh, Ho.
+    rewrite forallb_app in Hh. apply andb_true_iff in Hh. destruct Hh as [Hh1 Hh2]. cbn [forallb] in Hh2.
+    apply andb_true_iff in Hh2. destruct Hh2 as [Hh _].
+    apply orbits_differ_prefix in Ho.
+    assert (Hsp : exists psA psB, ps1 = psA ++ psB /\ map strip psA = flat_map (render_hbf ld) hbfs1 /\ map strip psB = render_pages ld h 0 pgs1).
+    { exists (firstn (length (flat_map (render_hbf ld) hbfs1)) ps1), (skipn (length (flat_map (render_hbf ld) hbfs1)) ps1).
+      split; [symmetry; apply firstn_skipn|]. rewrite <- firstn_map, <- skipn_map, Hm1. split; [apply firstn_app_exact|apply skipn_app_exact]. }
+    destruct Hsp as (psA & psB & -> & HA & HB).
+    destruct (its_run_hbfs_then ld Hwf Hsys Hfmt running hbfs1 ihs1 Hall psA (link_init (its_cfg running)) [] None h Hh1 Ho HA) with (rest := psB ++ p :: ps2)
+      as (s1 & prev' & E1 & L1 & P1 & B1 & O1).
+    { unfold latch_ok, link_init, its_cfg, sanity_init. cbn. split; [left; reflexivity|right; rewrite Hsys; reflexivity]. }
+    { split; reflexivity. }
+    { intros _. reflexivity. }
+    pose proof Hh as Hh'. unfold wf_hbf in Hh'. repeat (apply andb_true_iff in Hh'; destruct Hh' as [Hh' ?]).
+    match goal with H : (N.of_nat (length (h_pages h)) <? 65535) = true |- _ => apply N.ltb_lt in H; rename H into Hn end.
+    rewrite Hpages, app_length in Hn. cbn [length] in Hn.
+    destruct (its_run_pages_split ld Hwf Hsys Hfmt running h Hh ips1 true None ip ips2 Hpo pgs1 0 s1 psB [] HB Hpl1 L1 P1
+                (fun X => between_inv ld prev' _ h (B1 X) O1) ltac:(lia) ltac:(reflexivity) (p :: ps2)) as (s2 & f2 & o2 & E2 & L2 & P2 & R2 & Q2 & F2).
+    rewrite N.add_0_l in R2, F2.
+    destruct p as [pr pp poff]. unfold strip in Hp. cbn [c_rdh c_payload c_off] in *. injection Hp as -> ->.
+    set (k := N.of_nat (length pgs1)) in *.
+    destruct (sane_rendered ld Hwf (lk_sanity s2) h k 0 pg L2 Hh ltac:(lia)) as [S1 S2].
+    destruct (rdh_sanity (lk_sanity s2) (render_rdh ld h k 0 pg)) as [ss t10] eqn:E10. cbn [fst snd] in S1, S2. subst t10.
+    assert (Hpne : pg_payload pg <> []).
+    { rewrite Hpl. apply layout_nonempty. destruct Hihw as [[L _] _]. exact L. }
+    destruct (insync_first_tdh_page HS running ld h k pg ihw o2 w rest pad (lk_cdp s2) poff Hfmt Hihw Hgw Hsix Hpad Hpl P2 Hbound) as (sk & cs & more0 & Ecs & Fk & Posk).
+    assert (E3 : exists s3, link_step (its_cfg running) s2 {| c_rdh := render_rdh ld h k 0 pg; c_payload := pg_payload pg; c_off := poff |} =
+                            Ok (s3, word_msgs (its_cfg running) sk w ++ more0)).
+    { destruct running.
+      - destruct (running_data_page ld h k pg (lk_running s2) (R2 eq_refl) ltac:(lia)) as [R1' R2'].
+        destruct (running_check (lk_running s2) (render_rdh ld h k 0 pg)) as [rs t11] eqn:E11. cbn [fst snd] in R1', R2'. subst t11.
+        rewrite (its_step true s2 _ _ poff ss rs E10 E11 Hpne), Ecs. eexists. reflexivity.
+      - rewrite (its_step false s2 _ _ poff ss (lk_running s2) E10 eq_refl Hpne), Ecs. eexists. reflexivity. }
+    destruct E3 as [s3 E3].
+    exists sk. split; [exact Fk|]. split; [exact Posk|].
+    destruct (C04_proofs.c04_no_panic_without_stave (its_cfg running) ((psA ++ psB) ++ {| c_rdh := render_rdh ld h k 0 pg; c_payload := pg_payload pg; c_off := poff |} :: ps2)
+                ltac:(discriminate)) as [out' Eout].
+    exists out'. unfold run_validator in Eout |- *. rewrite <- app_assoc in Eout |- *. rewrite E1, E2 in Eout |- *.
+    cbn [link_run] in Eout |- *. rewrite E3 in Eout |- *.
+    destruct (link_run (its_cfg running) s3 ps2 ([] ++ word_msgs (its_cfg running) sk w ++ more0)) as [[sf o]|site] eqn:Er; [|discriminate].
+    injection Eout as <-. destruct (link_run_keeps _ _ _ _ _ _ Er) as [more Em]. exists (more0 ++ more). split; [reflexivity|].
+    rewrite Em. cbn [app]. rewrite app_assoc. reflexivity.
+  Qed.
+End FaultyFirstTdhLink.
